@@ -7,7 +7,7 @@ Lemma solution_line_failure_exits_1 e : is_exception e = true -> solution_line_f
 Proof. destruct e; intros H; try discriminate H; reflexivity. Qed.
 
 (* errors of the ValueError family raised anywhere in build_repo end the same way *)
-Lemma build_repo_value_failure_exits_1 e : value_family e = true -> build_repo_failure e = Exits 1.
+Lemma build_repo_value_failure_exits_1 e : repo_arg_family e = true -> build_repo_failure e = Exits 1.
 Proof. destruct e; intros H; try discriminate H; reflexivity. Qed.
 
 (* the two failures the solver reports on purpose end as a diagnostic and exit status 1 *)
@@ -18,3 +18,7 @@ Proof. intros [-> | ->]; reflexivity. Qed.
 Lemma compile_internal_error_escapes :
   compile_failure EAssertionError = Propagates EAssertionError /\ compile_failure EKeyError = Propagates EKeyError.
 Proof. split; reflexivity. Qed.
+
+(* every exception class the repository constructors raise for an unusable argument (generated list) is diagnosed *)
+Lemma repo_argument_failures_exit_1 : Forall (fun e => build_repo_failure e = Exits 1) repo_argument_failures.
+Proof. repeat constructor. Qed.
